@@ -1545,12 +1545,16 @@ def OP_CHECK_ADAPTER_SIG(tape: Tape, stack: Stack, cache: dict) -> None:
     m = stack.get()
     R = stack.get()
     sa = stack.get()
+    # sa must be a canonical scalar: the base point multiplication ignores bit
+    # 255, so a malleated sa would pass here but not decrypt to a valid sig
+    canonical = len(sa) == 32 and bytes_are_same(
+        sa, nacl.bindings.crypto_core_ed25519_scalar_reduce(sa + b'\x00'*32))
     sa_G = nacl.bindings.crypto_scalarmult_ed25519_base_noclamp(sa) # sa_G = G^sa
     RT = aggregate_points((R, T)) # R + T
     ca = clamp_scalar(H_small(RT, X, m)) # H(R + T || X || m)
     caX = nacl.bindings.crypto_scalarmult_ed25519_noclamp(ca, X) # X^H(R + T || X || m)
     RcaX = aggregate_points((R, caX)) # R + X^H(R + T || X || m)
-    stack.put(b'\xff' if bytes_are_same(sa_G, RcaX) else b'\x00')
+    stack.put(b'\xff' if canonical and bytes_are_same(sa_G, RcaX) else b'\x00')
 
 def OP_DECRYPT_ADAPTER_SIG(tape: Tape, stack: Stack, cache: dict) -> None:
     """Takes tweak scalar t (top), nonce point R, and signature adapter
